@@ -209,9 +209,16 @@ class MemioEngine(object):
         fail = self.inject_alloc_fail = (not heal and t.chance(0.08))
         if fail:
             w.fault("alloc_failure_injected")
+        # tag and clear left to their documented defaults (0, False) when
+        # that is what the caller wants
+        if not tag and not clear and t.draw(2):
+            pos_args, kw_args = [], {"x": xy[0], "y": xy[1], "app_id": app}
+            w.probe("alloc_default_tag_clear")
+        else:
+            pos_args, kw_args = [tag, xy[0], xy[1], app, clear], {}
         status, val = rigcall(
             w, (c.scp.TimeoutError, c.mcmod.SpiNNakerMemoryError),
-            c.mc.sdram_alloc_as_filelike, size, tag, xy[0], xy[1], app, clear)
+            c.mc.sdram_alloc_as_filelike, size, *pos_args, **kw_args)
         self.inject_alloc_fail = False
         if status == "exc":
             c.settle()
